@@ -13,8 +13,7 @@ ring homomorphic image of the operations (in particular any commutative ring).
 Buffers are `List α` with the slice semantics of the code: a call receives the sub-slices the Rust
 call receives and returns their new contents; every panic site (slice range, `assert!`,
 `debug_assert!`, `usize` underflow in the checked profile) is `none`. Stale buffer contents are
-modelled, not ignored: outside its domain (`FIXME: fix unbalanced inputs`) the routine returns the
-same garbage as the code. Recursion takes fuel.
+modelled, not ignored. Recursion takes fuel.
 No Mathlib import: this file is linked into the native driver.
 -/
 import Ymq.Model.PolySpec
@@ -80,10 +79,12 @@ def basicMul (o : Ops α) (z p q : List α) : Option (List α) :=
 def karatsuba (o : Ops α) : Nat → List α → List α → List α → List α → Option (List α × List α)
   | 0, _, _, _, _ => none
   | f + 1, z, p, q, tmp =>
-    if p.length ≤ 20 ∧ q.length ≤ 20 then (basicMul o z p q).map fun z' => (z', tmp)
+    let half := (max p.length q.length + 1) / 2
+    -- small operands, or unbalanced ones (a high part would be empty; commit "fix: Poly::karatsuba …")
+    if (p.length ≤ 20 ∧ q.length ≤ 20) ∨ p.length ≤ half ∨ q.length ≤ half then
+      (basicMul o z p q).map fun z' => (z', tmp)
     else if z.length < p.length + q.length then none        -- debug_assert!(z.len() >= p.len() + q.len())
     else
-      let half := (max p.length q.length + 1) / 2
       if tmp.length < 4 * half then none                    -- assert!(tmp.len() >= 4 * half)
       else if p.length < half ∨ q.length < half then none   -- &p[..half], &q[..half]
       else
@@ -137,15 +138,16 @@ def FUEL : Nat := 64
 def mulKaratsuba (o : Ops α) (p q : List α) : Option (List α) :=
   (karatsuba o FUEL (List.replicate (2 * p.length) o.zero) p q (List.replicate (6 * p.length) o.zero)).map (·.1)
 
-/-- the domain of `karatsuba` ("assumes similar degrees"): no panic site is reached and no product
-with an empty operand is formed, for operand lengths `lp`, `lq`, `|z| = zl`, `|tmp| = tl` -/
+/-- the domain of `karatsuba`: no panic site is reached, for operand lengths `lp`, `lq ≥ 1`,
+`|z| = zl`, `|tmp| = tl` and fuel `f` (after the fix every pair of lengths is admitted, see
+`karaOk_total`: only the buffer sizes matter) -/
 def karaOk : Nat → Nat → Nat → Nat → Nat → Bool
   | 0, _, _, _, _ => false
   | f + 1, lp, lq, zl, tl =>
-    if lp ≤ 20 ∧ lq ≤ 20 then decide (1 ≤ lp ∧ 1 ≤ lq ∧ lp + lq - 1 ≤ zl)
+    let half := (max lp lq + 1) / 2
+    if (lp ≤ 20 ∧ lq ≤ 20) ∨ lp ≤ half ∨ lq ≤ half then decide (1 ≤ lp ∧ 1 ≤ lq ∧ lp + lq - 1 ≤ zl)
     else
-      let half := (max lp lq + 1) / 2
-      decide (lp + lq ≤ zl ∧ 4 * half ≤ tl ∧ half < lp ∧ half < lq ∧ 3 * half ≤ zl) &&
+      decide (lp + lq ≤ zl ∧ 4 * half ≤ tl ∧ 3 * half ≤ zl) &&
         karaOk f half half (2 * half) zl && karaOk f half half (2 * half) (tl - 2 * half) &&
         karaOk f (lp - half) (lq - half) (zl - 2 * half) (tl - 2 * half)
 
